@@ -217,7 +217,11 @@ func (sess *hopSession) startCodex(t1, t2 *tubes.Reliable) {
 		stdinTube = t2
 		stdoutTube = t1
 	}
-	cmd, termEnv, shell, size, _ := codex.GetCmd(stdinTube)
+	cmd, termEnv, shell, size, cmdErr := codex.GetCmd(stdinTube)
+	if cmdErr != nil {
+		codex.SendFailure(stdoutTube, cmdErr)
+		return
+	}
 	principalSess := sess.ID
 	// if using an authgrant, check that the cmd is authorized
 	if sess.usingAuthGrant {
